@@ -18,12 +18,19 @@ Has(r, k) == k \in DOMAIN r
 Rej(rule, e) == PrintT(<<"REJECT", item.id, l, rule, e.frame>>)
 
 MinimalLen(v) == IF v < 128 THEN 1 ELSE IF v < 2048 THEN 2 ELSE IF v < 65536 THEN 3 ELSE IF v < 2097152 THEN 4 ELSE IF v < 67108864 THEN 5 ELSE 6
-Decorrelate(chcode, subs, n) ==
-    LET c1 == subs[1]  c2 == subs[2] IN
-    CASE chcode = 8 -> <<c1, [i \in 1..n |-> c1[i] - c2[i]]>>
-      [] chcode = 9 -> <<[i \in 1..n |-> c1[i] + c2[i]], c2>>
-      [] chcode = 10 -> LET L == [i \in 1..n |-> c1[i] + (c2[i] \div 2) + (c2[i] % 2)] IN <<L, [i \in 1..n |-> L[i] - c2[i]]>>
-      [] OTHER -> subs
+\* undoing the decorrelation in exact (pair) arithmetic; <<>> when a result leaves the frame's bit depth: such a frame is not a
+\* valid one and the value of its samples is not defined (the decoder wraps, the exact sum does not)
+Decorrelate(chcode, subs, n, bps, wide) ==
+    IF chcode \notin 8..10 THEN subs
+    ELSE LET c1 == subs[1]  c2 == subs[2]
+             \* wide = <<>> or the 33-bit side channel as pairs (then its entry in subs is a placeholder)
+             side(i) == IF wide # <<>> THEN <<wide[i][1], wide[i][2]>> ELSE IF chcode = 9 THEN WOf(c1[i]) ELSE WOf(c2[i])
+             wL == [i \in 1..n |-> CASE chcode = 8 -> WOf(c1[i])
+                                     [] chcode = 9 -> WAdd(side(i), WOf(c2[i]))
+                                     [] OTHER -> WAdd(WAdd(WOf(c1[i]), WHalf(side(i))), <<0, side(i)[2] % 2>>)]
+             wR == [i \in 1..n |-> IF chcode = 9 THEN WOf(c2[i]) ELSE WSub(wL[i], side(i))]
+             fits == \A i \in 1..n : WFits32(wL[i]) /\ WFits32(wR[i]) /\ InRange(WInt(wL[i]), bps) /\ InRange(WInt(wR[i]), bps)
+         IN IF fits THEN << [i \in 1..n |-> WInt(wL[i])], [i \in 1..n |-> WInt(wR[i])] >> ELSE <<>>
 Inter(chs, n) == LET k == Len(chs) IN [j \in 1..(n * k) |-> chs[((j - 1) % k) + 1][((j - 1) \div k) + 1]]
 
 Judge(e) ==
@@ -36,7 +43,11 @@ Judge(e) ==
         chcode == f.hdr.chcode
         canUndo == sOk /\ Has(e, "subs") /\ \A c \in 1..Len(e.subs) : Len(e.subs[c]) = n
         \* 32-bit side arithmetic stays inside TLC's integers only when the sums do
-        und == IF canUndo /\ f.hdr.errs = {} /\ f.hdr.bps <= 31 THEN Inter(Decorrelate(chcode, e.subs, n), n) ELSE <<>>
+        sideAt == IF chcode = 9 THEN 1 ELSE 2
+        wide == IF Has(e, "wide") /\ chcode \in 8..10 /\ e.wide.at = sideAt THEN e.wide.pairs ELSE <<>>
+        dec == IF canUndo /\ f.hdr.errs = {} /\ (f.hdr.bps <= 31 \/ chcode \notin 8..10 \/ wide # <<>> \/ e.subs_fit)
+               THEN Decorrelate(chcode, e.subs, n, f.hdr.bps, wide) ELSE <<>>
+        und == IF dec = <<>> THEN <<>> ELSE Inter(dec, n)
     IN /\ IF e.sret = "panic" \/ e.dret = "panic" THEN Rej("C17.no-panic", e) ELSE TRUE
        /\ IF sOk # dOk THEN PrintT(<<"REJECT", item.id, l, "C17.same-accept-reject", e.frame, e.sret, e.dret>>) ELSE TRUE
        /\ IF sOk /\ Has(e, "sub_lens") /\ \E c \in 1..Len(e.sub_lens) : e.sub_lens[c] # n
